@@ -611,6 +611,10 @@ func (s *Store) Bin(op Op, a, b *Term) *Term {
 		if a == b {
 			return s.Const(w, 0)
 		}
+		// (x + c1) - (y + c2)  ->  (x - y) + (c1 - c2)   (time.Time.Sub: both operands carry unixToInternal)
+		if a.op == OpBvAdd && a.args[1].op == OpConst && b.op == OpBvAdd && b.args[1].op == OpConst {
+			return s.Bin(OpBvAdd, s.Bin(OpBvSub, a.args[0], b.args[0]), s.Const(w, a.args[1].c-b.args[1].c))
+		}
 	case OpBvMul:
 		if a.op == OpConst {
 			a, b = b, a
